@@ -795,20 +795,33 @@ def boundary_cli(ctx, facts, tag):
             if recv[0] == "call" and recv[1] and recv[1]["path"].endswith("::value_of"):
                 n = strip_refs(recv[2][1])
                 name = const_value(n[1]) if n[0] == "const" else None
-            req = False
+            # The declarations are read as the set of (argument name, required flag) combinations that reach
+            # `Arg::required` on an `Arg::with_name(name)` — written in place, handed to a helper as parameters, or taken
+            # from the rows of a constant table (x_joint.joint_values): satisfied when the name is declared with `true`
+            # and never with `false`; violated when the declarations were all read and say otherwise; not read else.
+            from .x_joint import joint_values
+            decls, unreadable = set(), []
             if name is not None:
                 for b in facts.fns():
                     for bj, tt in b.calls():
                         if (callee_path(tt) or "").endswith("Arg::<'a, 'b>::required"):
-                            chain = m.trace if False else b.trace
                             e = strip_refs(b.trace(tt["args"][0]))
                             flag = strip_refs(b.trace(tt["args"][1]))
-                            names = []
-                            expr_mentions(e, lambda x: names.append(const_value(x[1])) if x[0] == "const" and isinstance(const_value(x[1]), str) else False)
-                            if name in names and flag[0] == "const" and const_value(flag[1]) is True:
-                                req = True
-            ctx.check(req, "K3.cli-required", "expect on clap argument %r is backed by required(true) (%s)" % (name, tag),
-                      "main unwraps the value of argument %r but the argument is not declared required(true): a missing argument would panic" % name, where=m.where(bi), fn=m.key, nontrivial=True)
+                            ctor = []
+                            expr_mentions(e, lambda x: ctor.append(x) if x[0] == "call" and x[1] and x[1]["path"].endswith("::with_name") and x[2] else False)
+                            vals = joint_values(facts, b, [ctor[0][2][0], flag]) if len(ctor) == 1 else None
+                            if vals is None or any(not isinstance(n_, str) or not isinstance(f_, bool) for n_, f_ in vals):
+                                unreadable.append((b, bj))
+                            else:
+                                decls |= vals
+            key = "expect on clap argument %r is backed by required(true) (%s)" % (name, tag)
+            if (name, True) in decls and (name, False) not in decls:
+                ctx.ok("K3.cli-required", key, nontrivial=True, sample={"argument": name, "declarations read (name, required)": sorted(decls)})
+            elif unreadable and (name, False) not in decls:
+                ub, ubj = unreadable[0]
+                ctx.unread("K3.cli-required", key, "a declaration Arg::required(..) whose argument name / flag is not read as constants (in place, parameters over all call sites, rows of a constant table)", where=ub.where(ubj), fn=ub.key)
+            else:
+                ctx.fail("K3.cli-required", key, "main unwraps the value of argument %r but the argument is not declared required(true) (declarations read: %s): a missing argument would panic" % (name, sorted(decls)), where=m.where(bi), fn=m.key)
     exits = [callee_path(t) for b in facts.fns() for _, t in b.calls() if callee_path(t) in ("std::process::abort", "std::intrinsics::abort")]
     ctx.check(not exits, "K3.cli-no-abort", "no process::abort in the binary — process::exit(status) is an ordinary end with an exit status (%s)" % tag, "the binary calls %s" % exits, where=m.where(), fn=m.key)
 
